@@ -147,3 +147,32 @@ Example C09_prefix_examples :
   prefix_ok xml_prefix_start xml_prefix_char [97; 10]%N = false /\             (* 'a\n' *)
   prefix_ok xml_prefix_start xml_prefix_char [97; 58; 98]%N = false.           (* 'a:b' *)
 Proof. repeat split; vm_compute; reflexivity. Qed.
+
+(* tags that are words of the storage formats themselves ("CLASS", "version", "leaf_nodes", "x", a
+   name ending in _re, ...) are identifiers like any other: C09_json_valid covers them, because tags
+   occur only as member names of the three tagged_* objects, which the schema constrains by pattern
+   alone.  A concrete instance (the correspondence run writes every such word as a tag): *)
+Definition reserved_tag_archive : farchive F :=
+  mkArchive F
+    [mkLeaf F (7%N, 1%N) (Some "CLASS") 0.5 (Some 4) true None None None;
+     mkLeaf F (7%N, 2%N) None 1 None true (Some ((7%N, 2%N), (7%N, 3%N))) None None;
+     mkLeaf F (7%N, 3%N) None 2 None true (Some ((7%N, 2%N), (7%N, 3%N))) None None]
+    [("CLASS", @TElem F 1.5 (7%N, 1%N)); ("version", @TElem F 1.5 (7%N, 1%N));
+     ("leaf_nodes", @TElem F 1.5 (7%N, 1%N)); ("x_re", @TElem F 1.5 (7%N, 1%N));
+     ("Archive", @TInterm F 4 None (7%N, 1%N) [((7%N, 1%N), 1)] [] [((7%N, 1%N), 1.75)])]
+    [("uid", mkTC "uid_re" "uid_im" None)]
+    [("uid_re", @TElem F 1 (7%N, 2%N)); ("uid_im", @TElem F 2 (7%N, 3%N))]
+    [((7%N, 1%N), mkInterm F None 1.75 None)].
+
+Example C09_reserved_word_tags :
+  wf F reserved_tag_archive /\ ident_tags F reserved_tag_archive /\
+  validates F gtc_defs gtc_schema (json_encode F json_schema_id reserved_tag_archive) = true.
+Proof.
+  assert (Hw : wf F reserved_tag_archive).
+  { split; [|split].
+    - repeat constructor.
+    - repeat constructor.
+    - repeat constructor; exists "uid"; (split; [left; reflexivity|]); [left | right]; reflexivity. }
+  assert (Hi : ident_tags F reserved_tag_archive) by (split; repeat constructor).
+  split; [exact Hw | split; [exact Hi | exact (C09_json_valid F _ Hw Hi)]].
+Qed.
